@@ -165,9 +165,6 @@ func (w *World) Restart() error {
 			}
 		}
 	}
-	if !ok {
-		return fmt.Errorf("Start did not finish restoring")
-	}
 	// Start generates the operator endpoint's certificate on the side and ends the process when it cannot write it or
 	// cannot listen: the run's directory must stay until that endpoint is up
 	up := false
@@ -179,6 +176,9 @@ func (w *World) Restart() error {
 	}
 	if !up {
 		return fmt.Errorf("the restarted teamserver's operator endpoint did not come up")
+	}
+	if !ok {
+		return fmt.Errorf("Start did not finish restoring")
 	}
 	w.Ext = nil
 	for _, l := range ts.Listeners {
